@@ -82,6 +82,9 @@ def c18(ctx, res):
     n = 12 if ctx.quick else 200
     ctx.gen_replay(res, "opts", "MC_C18.tla", "MC_C18_walk.cfg", workers=8,
                    extra=["-simulate", "num=%d" % n, "-depth", "31", "-seed", str(ctx.seed)])
+    # integrated specification: setter walks, then the codecs must behave as the codec specifications predict for the registers reached
+    ctx.gen_replay(res, "mxj", "Mxj.tla", "Mxj_walk.cfg", workers=8, procs=8,
+                   extra=["-simulate", "num=%d" % (6 if ctx.quick else 100), "-depth", "13", "-seed", str(ctx.seed)])
     res.exhaustive = False
     res.assumptions += ["key prefixes are single punctuation characters, attribute prefixes contain no upper-case letters (property's quantifier)",
                         "behavioural probes: one fixed input set per operation class; the probe of a class is checked to be influenced by every register the specification lists for it"]
